@@ -371,7 +371,7 @@ func (a *agg) add(l *workerLine) {
 
 func main() {
 	if len(os.Args) < 2 {
-		fatal2("usage: check <PROPERTY|selftest-determinism> [flags]")
+		fatal2("usage: check <PROPERTY|selftest-determinism|selftest-fidelity> [flags]")
 	}
 	prop := os.Args[1]
 	fs := flag.NewFlagSet("check", flag.ExitOnError)
@@ -402,6 +402,28 @@ func main() {
 	bin := build(work)
 	buildS := time.Since(start).Seconds()
 
+	if prop == "selftest-fidelity" {
+		// the fake Atomix runtime against the SDK's in-memory Atomix (sim/fidelity_test.go), outside any bubble
+		n := 40
+		if *runsFlag > 0 {
+			n = *runsFlag
+		}
+		out, err := runWorkerTest(bin, work, "TestAtomixFidelity", []string{fmt.Sprintf("VERIF_FID_SEEDS=%d", n), fmt.Sprintf("VERIF_FID_BASE=%d", seed), "GOMAXPROCS=4"}, 30*time.Minute)
+		for _, l := range strings.Split(out, "\n") {
+			if strings.Contains(l, "fidelity") || strings.Contains(l, "real:") || strings.Contains(l, "fake:") || strings.Contains(l, "FAIL") || strings.Contains(l, "panic") {
+				fmt.Println(l)
+			}
+		}
+		if !*keep {
+			os.RemoveAll(work)
+		}
+		if err != nil {
+			fmt.Println("selftest-fidelity: FAILED")
+			os.Exit(2)
+		}
+		fmt.Println("selftest-fidelity: ok")
+		os.Exit(0)
+	}
 	if prop == "selftest-determinism" {
 		code := selftest(bin, work, *runsFlag, *workers)
 		if !*keep {
